@@ -2,8 +2,8 @@
 
     Main results:
     - [simp_fuel_mono_res]: once [simp] returns something else than [SFuel], more fuel returns the same;
-    - [simp_total]: on a well-typed expression, for some fuel, [simp] returns [SPanic] or [SOk r] with
-      [mu r <= mu e];
+    - [simp_fuel_bound], [simp_total]: on a well-typed expression, with fuel (recursion depth)
+      [2 * mu e] or more, [simp] returns [SPanic] or [SOk r] with [mu r <= mu e];
     - [simp_terminates]: forall well-typed [e], exists [n], [simp n e <> SFuel].
 
     The proof is a well-founded induction on the measure [mu] of SimplifyTermMeasure.v:
@@ -85,27 +85,18 @@ Proof.
 Qed.
 
 (** ** children *)
-Definition total_at (c : expr) : Prop :=
-  exists n, simp n c = SPanic \/ exists r, simp n c = SOk r /\ mu r <= mu c.
+Definition total_at (n : nat) (c : expr) : Prop :=
+  simp n c = SPanic \/ exists r, simp n c = SOk r /\ mu r <= mu c.
 
-Lemma children_total l : (forall c, In c l -> total_at c) ->
-  exists n, simp_children (simp n) l = inl SPanic \/
-            exists cs, simp_children (simp n) l = inr cs /\ Forall2 (fun c c' => mu c' <= mu c) l cs.
+Lemma children_total n l : (forall c, In c l -> total_at n c) ->
+  simp_children (simp n) l = inl SPanic \/
+  exists cs, simp_children (simp n) l = inr cs /\ Forall2 (fun c c' => mu c' <= mu c) l cs.
 Proof.
   induction l as [|c rest IH]; intros H.
-  - exists O. right. exists []. split; [reflexivity|constructor].
-  - destruct (H c (or_introl eq_refl)) as (n1 & H1).
-    destruct (IH (fun x Hx => H x (or_intror Hx))) as (n2 & H2).
-    exists (Nat.max n1 n2). cbn [simp_children].
-    destruct H1 as [H1|(c' & H1 & M1)].
-    + rewrite (simp_fuel_mono_res _ _ _ H1 ltac:(discriminate) _ (Nat.le_max_l _ _)). now left.
-    + rewrite (simp_fuel_mono_res _ _ _ H1 ltac:(discriminate) _ (Nat.le_max_l _ _)).
-      assert (Hm : forall x r, In x rest -> simp n2 x = r -> r <> SFuel -> simp (Nat.max n1 n2) x = r).
-      { intros x r _ Hx Hr. apply (simp_fuel_mono_res _ _ _ Hx Hr). apply Nat.le_max_r. }
-      destruct H2 as [H2|(cs & H2 & M2)].
-      * rewrite (simp_children_mono_res _ _ _ _ Hm H2 ltac:(discriminate)). now left.
-      * rewrite (simp_children_mono_res _ _ _ _ Hm H2 ltac:(discriminate)). right.
-        exists (c' :: cs). split; [reflexivity|]. now constructor.
+  - right. exists []. split; [reflexivity|constructor].
+  - cbn [simp_children]. destruct (H c (or_introl eq_refl)) as [H1|(c' & H1 & M1)]; rewrite H1; [now left|].
+    destruct (IH (fun x Hx => H x (or_intror Hx))) as [H2|(cs & H2 & M2)]; rewrite H2; [now left|].
+    right. exists (c' :: cs). split; [reflexivity|]. now constructor.
 Qed.
 
 Lemma simp_children_each (f : expr -> sres) cs cs' :
@@ -127,17 +118,24 @@ Qed.
 Lemma list_eqb_refl l : list_eqb l l = true.
 Proof. induction l as [|x l IH]; cbn [list_eqb]; [reflexivity|]. now rewrite expr_eqb_refl, IH. Qed.
 
-(** ** the driver *)
-Lemma simp_total_aux : forall k e, (N.to_nat (mu e) < k)%nat -> wt e = true -> total_at e.
+Lemma total_at_mono n m c : total_at n c -> (n <= m)%nat -> total_at m c.
 Proof.
-  induction k as [|k IH]; intros e Hk Hwt; [lia|].
+  intros [H|(r & H & M)] Hm; [left|right; exists r; split; [|exact M]];
+    apply (simp_fuel_mono_res _ _ _ H); try discriminate; exact Hm.
+Qed.
+
+(** ** the driver: recursion depth [2 * k] suffices when [mu e <= k] *)
+Lemma simp_total_aux : forall k e, (N.to_nat (mu e) <= k)%nat -> wt e = true -> total_at (2 * k) e.
+Proof.
+  induction k as [|k IH]; intros e Hk Hwt; [pose proof (mu_pos e); lia|].
+  replace (2 * S k)%nat with (S (S (2 * k))) by lia. set (n := (2 * k)%nat) in *.
   (* children *)
-  assert (Hch : forall c, In c (children e) -> total_at c).
+  assert (Hch : forall c, In c (children e) -> total_at n c).
   { intros c Hc. apply IH.
     - pose proof (mu_child e c Hc). lia.
     - pose proof (wt_children e Hwt) as Hall. rewrite Forall_forall in Hall. now apply Hall. }
-  destruct (children_total _ Hch) as (n & [Hp|(cs & Hcs & Hmu)]).
-  { exists (S n). left. cbn [simp]. now rewrite Hp. }
+  destruct (children_total _ _ Hch) as [Hp|(cs & Hcs & Hmu)].
+  { apply (total_at_mono (S n)); [|lia]. left. cbn [simp]. now rewrite Hp. }
   assert (Hok : Forall2 ok_rw (children e) cs).
   { apply (simp_children_ok (simp n)); [|exact Hcs]. intros c c' Hin Hc. apply (simp_sound_lemma n); [|exact Hc].
     pose proof (wt_children e Hwt) as Hall. rewrite Forall_forall in Hall. now apply Hall. }
@@ -148,41 +146,44 @@ Proof.
   pose proof (rebuild_mu e cs Hle) as Hrm.
   destruct (simplify e cs) as [[r0|]|] eqn:Es.
   - (* a rule fired *)
+    apply (total_at_mono (S n)); [|lia].
     destruct (expr_eqb r0 e) eqn:Ee.
-    { exists (S n). right. exists e. split; [|lia]. cbn [simp]. now rewrite Hcs, Es, Ee. }
+    { right. exists e. split; [|lia]. cbn [simp]. now rewrite Hcs, Es, Ee. }
     assert (Hs' : simplify (rebuild e cs) (children (rebuild e cs)) = Ok (Some r0)) by (rewrite Hchild; congruence).
     pose proof (simplify_decreases _ _ (proj1 Hrb) Hs') as Hdec.
     pose proof (simplify_sound _ _ (proj1 Hrb) Hs') as Hr0.
-    destruct (IH r0 ltac:(lia) (proj1 Hr0)) as (n' & Hn').
-    exists (S (Nat.max n n')). cbn [simp].
-    rewrite (simp_children_mono_res (simp n) (simp (Nat.max n n')) _ _
-               ltac:(intros c r1 _ Hc1 Hr1; apply (simp_fuel_mono_res _ _ _ Hc1 Hr1); apply Nat.le_max_l)
-               Hcs ltac:(discriminate)).
-    rewrite Es, Ee.
-    destruct Hn' as [Hn'|(r & Hn' & Mr)].
-    + left. apply (simp_fuel_mono_res _ _ _ Hn'); [discriminate|apply Nat.le_max_r].
-    + right. exists r. split; [|lia]. apply (simp_fuel_mono_res _ _ _ Hn'); [discriminate|apply Nat.le_max_r].
+    destruct (IH r0 ltac:(lia) (proj1 Hr0)) as [Hn'|(r & Hn' & Mr)]; fold n in Hn'.
+    + left. cbn [simp]. now rewrite Hcs, Es, Ee.
+    + right. exists r. split; [|lia]. cbn [simp]. now rewrite Hcs, Es, Ee.
   - (* no rule *)
     destruct (list_eqb cs (children e)) eqn:El.
-    { exists (S n). right. exists e. split; [|lia]. cbn [simp]. now rewrite Hcs, Es, El. }
-    (* the rebuilt node: its children are fixed points, no rule fires on it either *)
+    { apply (total_at_mono (S n)); [|lia]. right. exists e. split; [|lia]. cbn [simp]. now rewrite Hcs, Es, El. }
+    (* the rebuilt node: its children are fixed points, no rule fires on it either; one more level *)
     assert (Hfix : Forall (fun c' => simp n c' = SOk c') cs).
     { pose proof (simp_children_each _ _ _ Hcs) as He. clear - He.
       induction He as [|c c' l l' Hc _ IHl]; constructor; [|exact IHl].
       destruct (simp_idempotent_lemma _ _ _ Hc) as (m & Hm & Hr). now apply (simp_fuel_mono _ _ _ Hr). }
-    exists (S (S n)). right. exists (rebuild e cs). split; [|exact Hrm].
+    right. exists (rebuild e cs). split; [|exact Hrm].
     assert (Hcs' : simp_children (simp (S n)) (children e) = inr cs).
     { apply (simp_children_mono_res (simp n)); [|exact Hcs|discriminate].
       intros c r1 _ Hc1 Hr1. apply (simp_fuel_mono_res _ _ _ Hc1 Hr1). lia. }
     cbn [simp]. cbn [simp] in Hcs'. rewrite Hcs', Es, El.
     rewrite Hchild, (simp_children_fixed n cs Hfix), <- Hsimp, list_eqb_refl. reflexivity.
   - (* the rule panicked *)
-    exists (S n). left. cbn [simp]. now rewrite Hcs, Es.
+    apply (total_at_mono (S n)); [|lia]. left. cbn [simp]. now rewrite Hcs, Es.
+Qed.
+
+(** the recursion depth [2 * mu e] always suffices (a crude bound: [mu] is exponential in the bit widths) *)
+Theorem simp_fuel_bound e : wt e = true ->
+  forall n, (2 * N.to_nat (mu e) <= n)%nat ->
+  simp n e = SPanic \/ exists r, simp n e = SOk r /\ mu r <= mu e.
+Proof.
+  intros Hwt n Hn. exact (total_at_mono _ n e (simp_total_aux (N.to_nat (mu e)) e (Nat.le_refl _) Hwt) Hn).
 Qed.
 
 Theorem simp_total e : wt e = true ->
   exists n, simp n e = SPanic \/ exists r, simp n e = SOk r /\ mu r <= mu e.
-Proof. intros Hwt. exact (simp_total_aux (S (N.to_nat (mu e))) e ltac:(lia) Hwt). Qed.
+Proof. intros Hwt. exists (2 * N.to_nat (mu e))%nat. now apply simp_fuel_bound. Qed.
 
 (** C13, first clause: simplifying a well-typed expression terminates *)
 Theorem simp_terminates : forall e, wt e = true -> exists n, simp n e <> SFuel.
@@ -200,3 +201,17 @@ Proof.
   exists r. split; [exact H|]. split; [now apply (simp_sound_lemma n)|]. split; [exact M|].
   destruct (simp_idempotent_lemma _ _ _ H) as (m & _ & Hm). now exists m.
 Qed.
+
+(** the hypothesis is satisfiable, and the statement is not vacuous on an expression that exercises the
+    size-increasing rules (mask expansion, shift by a constant, slice push-down, concat re-association) *)
+Example simp_terminates_example :
+  let x := BVSymbol "x" 8 in
+  let e := BVEqual (BVAnd (BVShiftLeft x (BVLiteral 8 3) 8) (BVLiteral 8 0x5A) 8)
+                   (BVConcat (BVSlice x 7 4) (BVNot (BVSlice x 3 0) 4) 8) in
+  wt e = true /\ (exists r, simp 100 e = SOk r) /\ mu e = 5190680045521207296.
+Proof. vm_compute. split; [reflexivity|]. split; [eexists; reflexivity|reflexivity]. Qed.
+
+Print Assumptions simp_terminates.
+Print Assumptions simp_fuel_bound.
+Print Assumptions simp_normal_form.
+Print Assumptions simp_fuel_mono_res.
